@@ -22,6 +22,9 @@ def operand_values(bits, count, budget):
     return edge, False
 
 
+MAX_RUNAWAYS = 12
+
+
 def explore_block(h, spec, bits, budget, sieve, stats, case_base, closure=True, max_residues=24):
     """phase A: every operand tuple in sequence (the residue evolves along the chain);
     phase B: closure - every distinct residue seen x every operand tuple, until no new residue."""
@@ -35,6 +38,8 @@ def explore_block(h, spec, bits, budget, sieve, stats, case_base, closure=True, 
     residues[residue_key(base_res)] = base_res
     outcomes = set()
     recent = []
+    runaways = [0]   # steps of this block that hit the watchdog: each one is a violation already; after MAX_RUNAWAYS the block is abandoned
+    #                  (a change that makes a macro run away on every operand would otherwise cost budget x 5 CPU-seconds)
 
     def one(tup, phase, res_key):
         v = dict(base_vals)
@@ -50,6 +55,8 @@ def explore_block(h, spec, bits, budget, sieve, stats, case_base, closure=True, 
         problems = []
         if r['cause'] != 0:
             problems.append(('termination', 'self-loop halt at an exit', {'cause': r['cause'], 'err': r.get('err')}))
+            if r['cause'] == 'watchdog':
+                runaways[0] += 1
         else:
             if r['exit'] != exit_:
                 problems.append(('branch', exit_, r['exit']))
@@ -76,6 +83,9 @@ def explore_block(h, spec, bits, budget, sieve, stats, case_base, closure=True, 
 
     # phase A
     for tup in tuples:
+        if runaways[0] >= MAX_RUNAWAYS:
+            stats['blocks_abandoned_after_runaways'] = stats.get('blocks_abandoned_after_runaways', 0) + 1
+            break
         r = one(tup, 'chain', None)
         recent.append(list(tup))
         if r:
@@ -96,6 +106,9 @@ def explore_block(h, spec, bits, budget, sieve, stats, case_base, closure=True, 
                 continue
             done.add(k)
             for tup in cap_tuples:
+                if runaways[0] >= MAX_RUNAWAYS:
+                    work = []
+                    break
                 h.set_region(spec.name, residues[k])
                 r = one(tup, 'closure', k)
                 if r:
